@@ -149,7 +149,7 @@ impl EventEncoder for MetricsEventEncoder {
 
             return Some(EncodedEvent {
                 scope: evt.mdl().to_owned(),
-                payload: encoded,
+                payload: encoded.ok()?,
             });
         }
 
@@ -374,12 +374,12 @@ impl RequestEncoder for MetricsRequestEncoder {
         resource: Option<&EncodedPayload>,
         items: &EncodedScopeItems,
     ) -> Result<EncodedPayload, Error> {
-        Ok(E::encode(ExportMetricsServiceRequest {
+        E::encode(ExportMetricsServiceRequest {
             resource_metrics: &[ResourceMetrics {
                 resource: &resource,
                 scope_metrics: &EncodedScopeMetrics(items),
             }],
-        }))
+        })
     }
 }
 
